@@ -46,6 +46,10 @@ pub fn abstract_module(wasm: &[u8]) -> Result<Abs> {
 
 /// The real tool. Ok(bytes) or the class of its error.
 pub fn apply(wasm: &[u8]) -> std::result::Result<Vec<u8>, String> {
+    let w = wasm.to_vec();
+    match std::panic::catch_unwind(move || apply_inner(&w)) { Ok(r) => r, Err(_) => Err("other:".to_string() + &hexs("the tool panicked")) }
+}
+fn apply_inner(wasm: &[u8]) -> std::result::Result<Vec<u8>, String> {
     let module = match walrus::Module::from_buffer(wasm) { Ok(m) => m, Err(e) => return Err(format!("parse:{}", hexs(&format!("{:#}", e)))) };
     let cg = match shopify_function_trampoline::TrampolineCodegen::new(module) { Ok(c) => c, Err(e) => return Err(classify(&format!("{:#}", e))) };
     match cg.apply() { Ok(mut m) => Ok(m.emit_wasm()), Err(e) => Err(classify(&format!("{:#}", e))) }
@@ -77,10 +81,11 @@ pub fn gen_guest(r: &mut Rng, module: &str, api: &[ApiImport], class: &str) -> G
     // ---- imports
     let mut names: Vec<&ApiImport> = api.iter().filter(|i| r.chance(if STRINGS.contains(&i.name.as_str()) { 60 } else { 35 })).collect();
     if class == "all" { names = api.iter().collect(); }
-    if class == "badsig" && !names.iter().any(|i| STRINGS.contains(&i.name.as_str())) { names.push(api.iter().find(|i| i.name == *r.pick(&STRINGS)).unwrap()); }
+    if class == "badsig" && !names.iter().any(|i| STRINGS.contains(&i.name.as_str())) { let pick = *r.pick(&STRINGS); names.push(api.iter().find(|i| i.name == pick).unwrap()); }
     if class == "dup" && names.is_empty() { names.push(r.pick(api)); }
+    if class == "dupbad" { names.retain(|i| !STRINGS.contains(&i.name.as_str())); let pick = *r.pick(&STRINGS); names.push(api.iter().find(|i| i.name == pick).unwrap()); }
     for k in (1..names.len()).rev() { let j = r.below(k as u64 + 1) as usize; names.swap(k, j); }
-    let bad_at = if names.is_empty() { 0 } else { r.below(names.len() as u64) as usize };
+    let bad_at = if class == "dupbad" { names.iter().position(|i| STRINGS.contains(&i.name.as_str())).unwrap_or(0) } else if names.is_empty() { 0 } else { r.below(names.len() as u64) as usize };
     let bad_sig_target = names.iter().position(|i| STRINGS.contains(&i.name.as_str()));
     let mut imp_lines: Vec<String> = vec![]; let mut fimports: Vec<(String, Vec<ValType>, Vec<ValType>, bool)> = vec![]; // ($id, params, results, differential-safe)
     let mut nforeign = 0;
@@ -95,7 +100,10 @@ pub fn gen_guest(r: &mut Rng, module: &str, api: &[ApiImport], class: &str) -> G
         let safe = !STRINGS.contains(&i.name.as_str());
         let id = format!("api{}", k);
         imp_lines.push(decl(&id, module, &i.name, &p, &rs)); fimports.push((id, p, rs, safe));
-        if class == "dup" && k == bad_at { let id = format!("apidup{}", k); imp_lines.push(decl(&id, module, &i.name, &i.params, &i.results)); fimports.push((id, i.params.clone(), i.results.clone(), false)); }
+        if (class == "dup" || class == "dupbad") && k == bad_at { let id = format!("apidup{}", k);
+            let (mut dp, mut dr) = (i.params.clone(), i.results.clone());
+            if class == "dupbad" { match r.below(3) { 0 => dp.push(ValType::I32), 1 => dp.push(ValType::I64), _ => { if dr.is_empty() { dr.push(ValType::I32) } else { dp.push(ValType::I32) } } } }
+            imp_lines.push(decl(&id, module, &i.name, &dp, &dr)); fimports.push((id, dp, dr, false)); }
     }
     // low-level names a guest may already use (accepted and kept), a look-alike module, foreign globals
     if r.chance(15) { imp_lines.push(decl("lowalloc", module, "_shopify_function_alloc", &[ValType::I32], &[ValType::I32])); fimports.push(("lowalloc".into(), vec![ValType::I32], vec![ValType::I32], true)); }
@@ -115,7 +123,7 @@ pub fn gen_guest(r: &mut Rng, module: &str, api: &[ApiImport], class: &str) -> G
     if let Some(d) = defect { let at = r.below(imp_lines.len() as u64 + 1) as usize; imp_lines.insert(at, d); }
     let imported_mem = class == "importedmem" || (class != "nomem_pure" && r.chance(12));
     let own_mems = match class { "nomem" | "nomem_pure" => 0, "twomem" => 2 + r.below(2), _ => 1 };
-    if imported_mem { let at = r.below(imp_lines.len() as u64 + 1) as usize; imp_lines.insert(at, "  (import \"env\" \"emem\" (memory $emem 1))".into()); }
+    if imported_mem { let at = r.below(imp_lines.len() as u64 + 1) as usize; imp_lines.insert(at, format!("  (import \"env\" \"{}\" (memory $emem 1))", if r.chance(50) { "memory" } else { "emem" })); }
     if r.chance(8) && own_mems > 0 { imp_lines.push(format!("  (import \"{}\" \"memory\" (memory $pmem 1))", module)); }
     for l in &imp_lines { s.push_str(l); s.push('\n'); }
     // ---- own content
@@ -281,7 +289,7 @@ pub fn run(args: &[String]) -> Result<()> {
     } else {
         let mut rng = Rng::new(seed);
         let n = if tier == "thorough" { 1500 } else { 160 };
-        let classes = ["valid", "valid", "valid", "valid", "all", "importedmem", "nomem", "nomem_pure", "unknown", "unknown", "version", "version", "badsig", "badsig", "twomem", "dup"];
+        let classes = ["valid", "valid", "valid", "valid", "all", "importedmem", "nomem", "nomem_pure", "unknown", "unknown", "version", "version", "badsig", "badsig", "twomem", "dup", "dupbad"];
         let mut per_class = std::collections::BTreeMap::<String, u64>::new(); let mut verdicts = std::collections::BTreeMap::<String, u64>::new(); let mut ncalls = 0u64; let mut distinct = std::collections::BTreeSet::<String>::new();
         for id in 0..n {
             let mut r = rng.fork(id as u64);
